@@ -5,8 +5,10 @@
 # touched and other work going on in them is not disturbed. Prints the check's output and the
 # exit status. Scratch copies are removed afterwards.
 set -u
-# one evaluation at a time (shared build cache /tmp/evalcache)
-exec 9>/tmp/evalcache.lock
+# one evaluation at a time per lane (build cache /tmp/evalcache$EVAL_LANE; lanes run side by side)
+LANE=${EVAL_LANE:-}
+CACHE=/tmp/evalcache$LANE
+exec 9>$CACHE.lock
 flock 9
 PATCH=$(readlink -f "$1"); PROP=$2; TIER=${3:-quick}; SEED=${4:-1}
 ID=$$
@@ -21,14 +23,14 @@ if ! git -C $R apply "$PATCH" 2>/dev/null; then
 fi
 mkdir -p $V
 rsync -a --exclude out --exclude .git --exclude .build /verif/ $V/
-mkdir -p $V/out /tmp/evalcache/build
+mkdir -p $V/out $CACHE/build
 # cargo/C build cache of previous evaluations (never /verif/.build: builders may be writing to it)
-rsync -a /tmp/evalcache/build/ $V/.build/
+rsync -a $CACHE/build/ $V/.build/
 unshare -m bash -c "mount --bind $R /repo && mount --bind $V /verif && cd /verif && ./check $PROP --tier $TIER --seed $SEED; echo EXIT=\$?" 2>&1 | tee /tmp/seedeval-$ID.log | grep -E "VIOLATION|KNOWN-FINDING|EXIT=|tier=|broken:" | head -20
 # keep the replay files of a detected violation for inspection
 mkdir -p /tmp/seedeval-out/$PROP-$ID; cp -r $V/out/$PROP/replays /tmp/seedeval-out/$PROP-$ID/ 2>/dev/null
 cp $V/evidence/$PROP.json /tmp/seedeval-out/$PROP-$ID/evidence.json 2>/dev/null
 echo "artifacts: /tmp/seedeval-out/$PROP-$ID"
-rsync -a --delete $V/.build/ /tmp/evalcache/build/
+rsync -a --delete $V/.build/ $CACHE/build/
 rm -rf $V
 git -C /repo worktree remove --force $R
